@@ -98,6 +98,11 @@ class C17Hook:
             import re as _re
             if not _re.fullmatch(r"s?d?p*|e+", kinds):
                 run.violation("C17-order", ts.ti, oi, "$source[%d].kinds" % si, "source? gherkinDocument? pickle* | parseError+", kinds)
+            # "one parseError envelope per error": the same error is not reported twice for one source
+            errs = [engine.canon(e) for e in s["snap"] if isinstance(e, dict) and "parseError" in e]
+            if len(set(errs)) != len(errs):
+                dup = next(x for x in errs if errs.count(x) > 1)
+                run.violation("C17-order", ts.ti, oi, "$source[%d].duplicate_parseError" % si, "pairwise distinct parseError envelopes", dup)
             self.combos.add(h48([text, opts, cons.get("k"), oi > 0 or si > 0]))
             gold = (run.spec.get("golden") or {}).get(str(oi)) if si == 0 and s["status"] == "ok" else None
             if gold is not None:
